@@ -173,7 +173,9 @@ BeginNextRound(w, s) ==
   LET r == s.round
       s1 == [s EXCEPT !.round = r + 1]
       js == IF HasStrong(w, r, "COMMIT", Bot) THEN {BuildJ(w, r, "COMMIT", Bot)}
-            ELSE IF HasJ(w, r + 1, "PREPARE", "COMMIT", Bot) THEN {GetJ(w, r + 1, "PREPARE", "COMMIT", Bot)}
+            \* GetJustificationOf(COMMIT, bottom) returns the first match in Go map order: any stored justification of COMMIT for bottom
+            ELSE IF HasJ(w, r + 1, "PREPARE", "COMMIT", Bot) THEN
+                   {w.J[k] : k \in {x \in DOMAIN w.J : x[1] = r + 1 /\ x[2] = "PREPARE" /\ w.J[x].v = Bot /\ w.J[x].ph = "COMMIT"}}
             ELSE IF ConvHasJ(w, s, r + 1, "COMMIT", Bot) THEN
                    {j \in UNION {ConvJusts(w, s, r + 1, x) : x \in ConvVals(w, s, r + 1)} : j.ph = "COMMIT" /\ j.v = Bot}
             ELSE {w.J[JKey(r, "COMMIT", s.proposal)]}
